@@ -270,6 +270,28 @@ def h_lazy(eng):
         eng.prove(Eq(a.magnitude, b.magnitude), f"lazy:{u}->{v}")
     eng.prove("kilometer" in app and "nosuchunit" not in app, "lazy:contains")
     eng.prove(type(lazy).__name__ == "UnitRegistry", "lazy:became-a-registry")
+    # the first thing done to a lazy registry may be an assignment of an option: it takes effect
+    # exactly as on an explicitly built registry
+    import pint
+
+    def observe(reg):
+        q = reg.Quantity(x, "inch")
+        b = q.to_base_units()
+        return (str(b.units), format(reg.Unit("meter/second")), reg.default_system, reg.default_format, reg.autoconvert_offset_to_baseunit, str(reg.get_base_units("mile")[1]))
+
+    for attr, value in (("default_system", "cgs"), ("default_system", "imperial"), ("default_format", "~P"), ("default_format", "C"), ("autoconvert_offset_to_baseunit", True), ("force_ndarray_like", False)):
+        lz = LazyRegistry(kwargs=dict(non_int_type=eng.ntype))
+        setattr(lz, attr, value)  # first touch
+        explicit = pint.UnitRegistry(non_int_type=eng.ntype)
+        setattr(explicit, attr, value)
+        eng.prove(observe(lz) == observe(explicit), f"lazy:first-touch-assignment:{attr}={value}")
+        eng.prove(getattr(lz, attr) == value, f"lazy:first-touch-assignment-reads-back:{attr}={value}")
+        eng.prove(Eq(lz.Quantity(x, "inch").to_base_units().magnitude, explicit.Quantity(x, "inch").to_base_units().magnitude), f"lazy:first-touch-assignment:value:{attr}={value}")
+        # through the application-registry proxy as well
+        lz2 = LazyRegistry(kwargs=dict(non_int_type=eng.ntype))
+        app2 = ApplicationRegistry(lz2)
+        setattr(app2, attr, value)
+        eng.prove(observe(app2) == observe(explicit), f"lazy:first-touch-assignment-through-proxy:{attr}={value}")
 
 
 def h_exceptions(eng):
@@ -284,13 +306,34 @@ def h_exceptions(eng):
         perr.OffsetUnitCalculusError("degC", "kelvin"),
         perr.OffsetUnitCalculusError("degC"),
         perr.LogarithmicUnitCalculusError("dB", "m"),
+        perr.LogarithmicUnitCalculusError("dB"),
         perr.DefinitionSyntaxError("bad line"),
         perr.RedefinitionError("meter", str),
         perr.DefinitionError("meter", str, "no good"),
         perr.UnitStrippedWarning("stripped"),
         perr.UndefinedBehavior("hm"),
     ]
+    # falsy second arguments are values like any other; also what the library itself raises
+    for cls in (perr.OffsetUnitCalculusError, perr.LogarithmicUnitCalculusError):
+        for u2 in ("", 0, UnitsContainer({}), None, uc, 0.0, ()):
+            samples.append(cls(uc, u2))
+            samples.append(cls("degC", u2))
+    for cls in (perr.DimensionalityError,):
+        for a in ("", 0, UnitsContainer({}), None):
+            samples.append(cls("meter", a, a, a, a if isinstance(a, str) else ""))
+    for fn in (lambda: ureg.Quantity(1, "degC") * 2, lambda: ureg.Quantity(1, "degC") * ureg.Quantity(1, "meter"), lambda: ureg.Quantity(1, "degC") ** 2, lambda: ureg.Quantity(1, "dBm") * ureg.Quantity(1, "meter"),
+               lambda: ureg.Quantity(1, "dBm") * 2, lambda: ureg.Quantity(1, "meter").to("second"), lambda: ureg.Quantity(1, "meter") + 1, lambda: ureg.parse_units("nosuchunit")):  # fmt: skip
+        try:
+            fn()
+        except perr.PintError as ex:
+            samples.append(ex)
+    import copy
+
     for ex in samples:
+        name = type(ex).__name__
+        for cname, cp in (("copy", copy.copy), ("deepcopy", copy.deepcopy)):
+            got = cp(ex)
+            eng.prove(type(got) is type(ex) and str(got) == str(ex) and vars(got) == vars(ex), f"{name}:{cname}:type-message-fields")
         for proto in range(0, pickle.HIGHEST_PROTOCOL + 1):
             got = pickle.loads(pickle.dumps(ex, proto))
             name = type(ex).__name__
